@@ -1107,6 +1107,18 @@ def _const_val(rv, vals, env):
     return None
 
 
+def ret_defs(body, R):
+    """Every definition of the return place _0: (bb, expr, span), from assignments and from call destinations."""
+    out = []
+    for i, j, st in body.stmts():
+        if st['k'] == 'assign' and st['place']['local'] == 0 and not st['place']['proj']:
+            out.append((i, R.rvalue(st['rv'], i, j), st['span']))
+    for i, t in body.calls():
+        if t['dest']['local'] == 0 and not t['dest']['proj']:
+            out.append((i, R.call_expr(t, i), t['span']))
+    return out
+
+
 def phi_table(body, R, local):
     """For a local assigned in several arms: list of (value expr, guard literals of the assigning block, bb)."""
     out = []
